@@ -748,12 +748,16 @@ def _put_one_Constant_kind(
 
     if value != child:
         if value is None:
-            if lines[ln].startswith('u', col):
-                self._put_src(None, ln, col, ln, col + 1, False)
+            if lines[ln][col : col + 1] not in 'uU':
+                raise ValueError("cannot remove kind from string which does not have a 'u' prefix")  # pragma: no cover
+
+            self._put_src(None, ln, col, ln, col + 1, False)
 
         elif value == 'u':
-            if lines[ln][col : col + 1] in '\'"':
-                self._put_src(['u'], ln, col, ln, col, False, False)
+            if lines[ln][col : col + 1] not in '\'"':
+                raise ValueError("cannot set kind 'u' on string which already has a prefix")
+
+            self._put_src(['u'], ln, col, ln, col, False, False)
 
         else:
             raise ValueError(f"expecting 'u' or None, got {value!r}")
